@@ -101,7 +101,7 @@ def _cases(draw, tier):
             return {'skip': 'no operand value satisfies the constraints', 'isa': cfg}
         ops.append(o)
     perturb = draw(st.sampled_from(['none', 'none', 'none', 'reg', 'drop', 'add', 'keylabel', 'keylabel', 'keyplus', 'keyplus',
-                                    'garbage', 'garbage']))
+                                    'garbage', 'garbage', 'regnear', 'regnear']))
     regs = isa.registers
     if perturb == 'reg' and ops and regs:
         i = draw(st.integers(0, len(ops) - 1))
@@ -110,6 +110,16 @@ def _cases(draw, tier):
         ops.pop(draw(st.integers(0, len(ops) - 1)))
     elif perturb == 'add':
         ops.insert(draw(st.integers(0, len(ops))), {'k': 'expr', 'e': ['num', draw(st.integers(0, 9)), 'dec']})
+    elif perturb == 'regnear' and ops:
+        # a register name with one character changed (the dot of "r1.w" replaced, a letter appended) is not that register
+        idxs = [i for i, o in enumerate(ops) if o['k'] in ('reg', 'indreg') and o.get('deco') is None and o.get('off') is None]
+        dotted = [i for i in idxs if '.' in ops[i]['r']]
+        if idxs:
+            i = draw(st.sampled_from(dotted or idxs))
+            r = ops[i]['r']
+            near = r.replace('.', draw(st.sampled_from(['z', '_', '0']))) if '.' in r else r + draw(st.sampled_from(['q', '_', '9']))
+            if near.lower() not in [x.lower() for x in isa.registers]:
+                ops[i] = {'k': 'raw', 'text': near if ops[i]['k'] == 'reg' else '[' + near + ']'}
     elif perturb == 'garbage' and ops:
         # an acceptable operand followed by text that belongs to nothing: no alternative reads the whole of it
         i = draw(st.integers(0, len(ops) - 1))
